@@ -40,6 +40,20 @@ def run(ctx):
         c["impl"] = c["impl"].replace("ndx.asarray(np.full(", "(ndx.asarray(np.full(").replace(", True))", ", 1)) > 0)").replace(", False))", ", 0)) > 0)") if "np.full(" in c["impl"] else c["impl"]
         c["lazy_subsets"] = [s_ for s_ in c["lazy_subsets"] if "sigs" not in s_][:2] + [{"names": []}]
     cases += sc
+    # one primitive evaluated at build time on constants that are equal as Python values but differ in the sign of a zero
+    # (or in dtype): nothing evaluated earlier may be reused for the later call
+    for i in range(20 if ctx.tier == "quick" else 200):
+        d = rnd.choice(["float64", "float32"])
+        k = rnd.choice([2, 3])
+        rest = [rnd.choice([2.0, 4.0, -1.0]) for _ in range(k - 1)]
+        z1, z2 = rnd.choice([(0.0, -0.0), (-0.0, 0.0)])
+        lit = lambda z: "np.array(%r, dtype=np.%s)" % ([z] + rest, d)
+        x = ops.tensor(rnd, d, [k], "small")
+        impl = rnd.choice([f"p_ = ndx.asarray({lit(z1)}); q_ = ndx.asarray({lit(z2)}); out = [1.0 / p_, 1.0 / q_, x + 0]",
+                           f"p_ = ndx.asarray({lit(z1)}); q_ = ndx.asarray({lit(z2)}); out = [ndx.divide(x, x) / p_, ndx.divide(x, x) / q_] if False else [ndx.atan2(p_, -p_ * 0 - 1), ndx.atan2(q_, -q_ * 0 - 1)]",
+                           f"p_ = ndx.asarray({lit(z1)}); q_ = ndx.asarray({lit(z2)}); out = [ndx.sign(1.0 / p_), ndx.sign(1.0 / q_), x * 1]"])
+        cases.append({"id": f"NZ-{i}", "inputs": {"x": x}, "impl": impl, "oracle": None, "tol": [0, 0],
+                      "meta": {"func": "signed-zero-constants", "dtype": d, "dclass": "float"}, "lazy_subsets": [{"names": ["x"]}, {"names": []}]})
     with_ort = core.run_cases("harness.h_ops", cases, workers=14, per_case_timeout=180)
     no_ort = core.run_cases("harness.h_noort", cases, workers=14, per_case_timeout=180)
     # evaluate the models built without onnxruntime
